@@ -631,9 +631,11 @@ impl<Backing : AsRef<[u32]> + AsMut<[u32]>> DrawTarget<Backing> {
     /// group opacity or blend effects.
     pub fn push_layer_with_blend(&mut self, opacity: f32, blend: BlendMode) {
         let rect = self.clip_bounds();
+        // an empty clip (disjoint or inverted rectangles) can have a negative extent
+        let len = if rect.is_empty() { 0 } else { (rect.size().width * rect.size().height) as usize };
         self.layer_stack.push(Layer {
             rect,
-            buf: vec![0; (rect.size().width * rect.size().height) as usize],
+            buf: vec![0; len],
             opacity,
             blend
         });
